@@ -40,6 +40,7 @@ ALL_FEATURES = (
     "code_lookup",
     "branch_edges",
     "ips",
+    "overlap",
 )
 # "big_incbin" (a >64 KiB contiguous block) is opt-in: callers add it explicitly with a low probability.
 
@@ -750,9 +751,11 @@ class Gen:
         if use_map:
             root += self.custom_map()
         include_at = rng.randrange(n_sections) if "include" in f else -1
+        section_addrs: list[int] = []
         for s in range(n_sections):
             bank = self.pick_section_bank(far)
             addr = (bank << 16) | pick_offset(rng, self.mapping if not use_map else "low")
+            section_addrs.append(addr)
             n0 = stmt(f"*={addr:#08x}" if rng.random() < 0.7 else f"*= {addr:#x}", "stareq")
             if s == 0:
                 n0["keep"] = True
@@ -793,10 +796,23 @@ class Gen:
                 root += [stmt(f"@={target:#x}", "ateq"), stmt(f"{lbl}:", "label"), stmt(f".dw {self.lit(16)}")]
                 root += [self.plain_instr() for _ in range(rng.randrange(0, 3))]
                 root += [stmt(f".pointer {lbl}"), self.plain_instr()]
+        if "overlap" in f and section_addrs:
+            # a later block that overlaps an earlier one from a lower (or slightly higher) address:
+            # 'later writes win' must hold whatever order a writer would like to store records in
+            a = rng.choice(section_addrs)
+            k = rng.choice([-3, -1, 0, 0, 2, 5])
+            if (a & 0x7FFF) + k < 0:
+                k = 0
+            root.append(stmt(f"*={a + k:#08x}", "stareq"))
+            root.append(stmt(".db " + ", ".join(self.lit(8) for _ in range(rng.randrange(2, 9)))))
         if "big_incbin" in f and not use_map:
             # one contiguous block of more than 64 KiB (spills over the following banks)
-            size = rng.choice([65535, 65536, 65537, 70000, 131071, 131077])
-            units = size // 0x8000 + 2
+            # total length of the contiguous block (the blob plus an optional trailing byte): exact multiples
+            # of 65535 and their neighbours are the interesting cases for any writer that splits blocks
+            trailing = rng.random() < 0.5
+            total = rng.choice([65534, 65535, 65535, 65536, 65537, 70000, 131069, 131070, 131070, 131071, 196605])
+            size = total - (1 if trailing else 0)
+            units = total // 0x8000 + 2
             bank = self.pick_bank_run(units)
             if bank is not None:
                 start = 0x8000 if self.mapping != "high" else 0x0000
@@ -805,7 +821,8 @@ class Gen:
                 prog.roles[rel] = "incbin"
                 root.append(stmt(f"*={(bank << 16) | start:#08x}", "stareq"))
                 root.append(stmt(f".incbin '{rel}'", "incbin"))
-                root.append(stmt(".db 0x42"))
+                if trailing:
+                    root.append(stmt(".db 0x42"))
         # trailing label table: lets an oracle read label values out of the emitted bytes
         if prog.global_labels:
             bank = self.pick_section_bank(far)
